@@ -24,8 +24,8 @@
 //!      message carrying a decodable *foreign* key is ever reported;
 //!  (2) a reported listen address that was sent inside a signed peer record is only reported if
 //!      that record is valid for the connection's peer (independent verification: signature over
-//!      domain/payload-type/payload by the envelope key, legacy domain and payload type, record
-//!      peer id == signer == connection peer, all addresses parse); a reported
+//!      domain/payload-type/payload by the envelope key, a well-known peer-record domain and
+//!      payload type pair, record peer id == signer == connection peer, all addresses parse); a reported
 //!      `signed_peer_record` must itself verify for that peer;
 //!  (3) no reported listen address (event, `NewExternalAddrOfPeer`, dial cache) has a last
 //!      component `/p2p/<X>` with X != the connection's peer (DESIGN §9: relay addresses through
@@ -338,7 +338,7 @@ fn build_signed(s: &SignedSpec, m: u8, own: usize) -> BuiltRec {
     BuiltRec { env, addrs, regular_own }
 }
 
-/// Three-valued independent verification of an envelope as a peer record (legacy format).
+/// Three-valued independent verification of an envelope as a peer record.
 #[derive(Clone, Debug, PartialEq, Eq)]
 enum RecTruth {
     Valid { peer: PeerId, addrs: Vec<Multiaddr> },
@@ -363,10 +363,16 @@ fn indep_verify(env: &[u8]) -> RecTruth {
     }
     let (Ok(pk), Ok(ptype), Ok(payload), Ok(sig)) = (single(&f, 1), single(&f, 2), single(&f, 3), single(&f, 5)) else { return RecTruth::Unknown };
     let Ok(key) = PublicKey::try_decode_protobuf(&pk) else { return RecTruth::Invalid };
-    if ptype != LEGACY_PTYPE {
+    // "validly signed": under one of the two well-known (domain, payload type) pairs of a peer
+    // record (legacy rust-libp2p format, or the standard interop format)
+    let domain = if ptype == LEGACY_PTYPE {
+        LEGACY_DOMAIN
+    } else if ptype == STANDARD_PTYPE {
+        STANDARD_DOMAIN
+    } else {
         return RecTruth::Invalid;
-    }
-    if !key.verify(&sig_buffer(LEGACY_DOMAIN.as_bytes(), &ptype, &payload), &sig) {
+    };
+    if !key.verify(&sig_buffer(domain.as_bytes(), &ptype, &payload), &sig) {
         return RecTruth::Invalid;
     }
     let Some(pf) = pb_parse(&payload) else { return RecTruth::Unknown };
@@ -532,7 +538,7 @@ fn build_msg(spec: &MsgSpec, m: u8, own: usize) -> Built {
         labels.push("lie:rec-garbage-bytes");
     }
     if rec_valid_own == Some(true) {
-        labels.push("rec:valid-own");
+        labels.push(if rec_regular_own { "rec:valid-own" } else { "rec:valid-own-but-irregular(interop format / same-key swap / harmless mutation)" });
     }
     if listen_parsed.iter().any(|a| names_other_peer(a, &own_peer)) {
         labels.push("lie:listen-addr-names-other-peer");
@@ -796,7 +802,6 @@ struct Conn {
 
 struct Sent {
     conn: usize,
-    push: bool,
     b: Built,
 }
 
@@ -1117,7 +1122,7 @@ impl Run {
         let has_rec = b.has_rec;
         let rec_bad = b.has_rec && b.rec_valid_own == Some(false);
         let rec_env = b.rec_env.clone();
-        self.sent.push(Sent { conn: c, push, b });
+        self.sent.push(Sent { conn: c, b });
         if !settle {
             self.labels.insert("burst(no settle between messages)");
             return Ok(None);
@@ -1561,14 +1566,14 @@ pub fn run(ctx: &mut Ctx) {
     ctx.check::<Case>(
         "world",
         "1 identify swarm, 1..5 connections (out/in, several per peer) to 4 of 9 pool identities, 2..12 ops; each message: key in {own, other, missing, empty, garbage, mutated own}, record in {none, valid own, foreign signer, subject != signer, tampered payload/signature, swapped envelope key, wrong domain / payload type, garbage, byte-mutated}, addresses with /p2p/own, /p2p/other, relay and unparsable forms, sent as the identify reply or as a push, with or without settling in between; non-trivial = the case contains a message with exactly one lie AND a fully honest message that was reported with exactly the sent content",
-        ctx.n(6000, 200_000),
+        ctx.n(10_000, 300_000),
         &case_strategy,
         &run_world,
     );
     ctx.check::<ParseCase>(
         "parse",
         "one identify reply or push (merged into an accepted honest prior) built like in `world`, optionally byte-mutated, mis-framed or replaced by arbitrary bytes, through recv_identify/recv_push -> Handler::handle_incoming_info -> multiaddr_matches_peer_id filter (cfg(libp2p_verif) shims); never panics; non-trivial = unmodified message with exactly one lie, or fully honest message accepted with exactly the sent content",
-        ctx.n(60_000, 2_000_000),
+        ctx.n(40_000, 1_500_000),
         &parse_case,
         &run_parse,
     );
